@@ -16,7 +16,9 @@ H = "static int hv(int *p) { if (p) {} return *p; }\n#define HIDX 2\n"
 A = "#include \"h.h\"\nvoid fa(void) { int a[2];\n a[HIDX] = 0; }\nint ua(void) { return 1; }\nvoid fn(int *q) { fb2(q); }\n"
 A_OLD = "#include \"h.h\"\n\nvoid fa(void) { int a[2];\n a[1] = 0; }\nint ua(void) { return 1; }\nint ua_old(void) { return 2; }\nvoid fn(int *q) { fb2(q); }\n"
 B = "#include \"h.h\"\n// cppcheck-suppress zerodiv\nvoid fb(int x) { int b[3];\n b[3] = x; }\nvoid fb2(int *p) { *p = 0; }\n"
-C = "void fb2(int *p);\nvoid fc(void) { int *z = 0; fb2(z); }\n"
+C = ("void fb2(int *p);\nvoid fc(void) { int *z = 0; fb2(z); }\n"
+     "#ifdef CFG_X\nvoid fx(void) { int x[2]; x[2] = 0; }\n#endif\n"       # three configurations, each with its own finding:
+     "#ifdef CFG_Y\nvoid fy(void) { int y[3]; y[4] = 0; }\n#endif\n")      # a cache file written per configuration
 FILES = {"h.h": H, "a.c": A, "b.c": B, "c.c": C}
 ORDER = ["a.c", "b.c", "c.c"]
 
